@@ -16,7 +16,7 @@ Record entry := mkEntry {
   e_chain : chain;                  (* its handlers, in order *)
   e_calls : list string;            (* calls made OUTSIDE any try block (all calls, when has_try = false) *)
   e_body_returns : bool;            (* every path of BODY ends in return (or in a [[noreturn]] call) *)
-  e_ret_ptr : bool                  (* the entry returns a pointer (char*), not an int code *)
+  e_ret_ptr : bool                  (* the entry returns a pointer, not an int code *)
 }.
 
 Inductive outcome := Returns (v : Z) | Throws (e : exn).
@@ -35,6 +35,7 @@ Definition effect_of (a : action) : list effect :=
   match a with
   | Notify (Code c) => [E_notify c]
   | Notify (CodeUnknown s) => [E_other s]
+  | Notify NullPtr => [E_other "nullptr"]
   | ResetTimeout => [E_reset_timeout]
   | ResetDetTimeout => [E_reset_det_timeout]
   | What => []
